@@ -272,7 +272,23 @@ class PlanJoinTablesQuery:
         # use limit for first table?
         # if only models
         use_limit = False
-        if query_in.having is None or query_in.group_by is None and query_in.limit is not None:
+
+        # an aggregate function counts the rows after the join
+        functions = []
+
+        def _find_functions(node, **kwargs):
+            if isinstance(node, (ast.Function, ast.WindowFunction)):
+                functions.append(node)
+
+        query_traversal(list(query_in.targets), _find_functions)
+
+        if (
+            query_in.limit is not None
+            and len(functions) == 0
+            and query_in.having is None
+            and query_in.group_by is None
+            and not query_in.distinct
+        ):
 
             join = None
             use_limit = True
@@ -405,11 +421,16 @@ class PlanJoinTablesQuery:
             # not use conditions
             conditions = []
 
+        # rows can be limited before the join only if all filters of the query are applied before it too
+        all_filters_used = len(conditions) == self.query_context['where_conjuncts']
+
         conditions += self.get_filters_from_join_conditions(item)
 
         if self.query_context['use_limit']:
             order_by = None
-            if query_in.order_by is not None:
+            if not all_filters_used:
+                order_by = False
+            elif query_in.order_by is not None:
                 order_by = []
                 # all order column be from this table
                 for col in query_in.order_by:
